@@ -65,7 +65,10 @@ pub fn c07(cfg: &Cfg, idx: u64, st: &mut Stats) {
         } else {
             None
         };
-        let base = BuildCase { task, bufcap, prefill: vec![], plan: Plan::clean(), random: None };
+        let mut base = BuildCase { task, bufcap, prefill: vec![], plan: Plan::clean(), random: None };
+        // how the file builds its io::Error values (message payload, bare
+        // kind, errno): a retry request is one whatever it looks like inside
+        base.plan.err_repr = crate::sink::ERR_REPRS[(idx % 3) as usize];
         let dry = run_build(&base);
         let writes: Vec<usize> =
             event_map(&dry).iter().filter(|e| e.1 && e.2 > 0).map(|e| e.2).collect();
@@ -139,6 +142,7 @@ pub fn c07(cfg: &Cfg, idx: u64, st: &mut Stats) {
             random: Some((gen::benign_shape(&mut rng), rng.next_u64())),
         };
         case.plan.vectored = rng.chance(1, 3);
+        case.plan.err_repr = *rng.pick(&crate::sink::ERR_REPRS);
         if rng.chance(1, 10) {
             // "bytes_written() ALWAYS equals the number of bytes the sink has
             // accepted so far": also right after a call that failed half-way
@@ -226,6 +230,13 @@ pub fn c01(cfg: &Cfg, idx: u64, st: &mut Stats) {
         st.report("C01", &Case::MemBuild(case));
         return;
     }
+    let hstart = dstart + C01_DELTAS.len() as u64 + 2;
+    if idx >= hstart && idx < hstart + HUGE_KEY_LENS.len() as u64 {
+        // "keys of any length": one key of 64 KiB .. 1 MiB (+-1) among short ones
+        st.count("probe.key_of_64KiB_to_1MiB", 1);
+        st.report("C01", &Case::Build(huge_key_case((idx - hstart) * 7 % 18, false)));
+        return;
+    }
     if idx >= bigs && idx < bigs + C01_EXHAUSTIVE {
         let e = idx - bigs;
         st.report("C01", &Case::Build(c01_exhaustive_case(e)));
@@ -275,6 +286,38 @@ pub fn c01(cfg: &Cfg, idx: u64, st: &mut Stats) {
         random: Some((shape, rng.next_u64())),
     };
     st.report("C01", &Case::Build(case));
+}
+
+
+/// Lengths around internal-looking thresholds for ONE very long key.
+pub const HUGE_KEY_LENS: [usize; 6] = [65_535, 65_537, (1 << 20) - 1, 1 << 20, (1 << 20) + 1, (1 << 20) + 77];
+
+/// A small world around one very long key K (a run of one byte): short keys
+/// before and after it, K + one byte, and — with `illegal` — the calls a
+/// builder must refuse right after K (a short smaller key, the empty key, K's
+/// proper prefix, K itself once more).
+fn huge_key_case(which: u64, illegal: bool) -> BuildCase {
+    let len = HUGE_KEY_LENS[(which % HUGE_KEY_LENS.len() as u64) as usize];
+    let front = [Front::Map, Front::Set, Front::Raw][((which / HUGE_KEY_LENS.len() as u64) % 3) as usize];
+    let valued = front != Front::Set;
+    let k1: Vec<u8> = vec![b'b'; len];
+    let mut k2 = k1.clone();
+    k2.push(b'c');
+    let v = |x: u64| if valued { x } else { 0 };
+    let mut ops = vec![Op::Ins(b"a".to_vec(), v(5)), Op::Ins(k1.clone(), v(70_000))];
+    if illegal {
+        ops.push(Op::Ins(b"a".to_vec(), v(1)));
+        ops.push(Op::Ins(Vec::new(), v(2)));
+        ops.push(Op::Ins(k1[..len - 1].to_vec(), v(3)));
+        ops.push(Op::Ins(k1.clone(), v(4)));
+        ops.push(Op::Ins(b"b".to_vec(), v(6)));
+    }
+    ops.push(Op::Ins(k2, v(1 << 33)));
+    ops.push(Op::Ins(b"c".to_vec(), v(9)));
+    if illegal {
+        ops.push(Op::Ins(k1, v(8)));
+    }
+    BuildCase::clean(TaskSpec { front, registry: None, ops, fin: Fin::IntoInner })
 }
 
 // ------------------------------------------------------------------- C06
@@ -435,6 +478,13 @@ pub fn c06(cfg: &Cfg, idx: u64, st: &mut Stats) {
                 )),
             );
         }
+        return;
+    }
+    if idx >= ex && idx < ex + 9 {
+        // the ordering contract around ONE very long accepted key (64 KiB ..
+        // 1 MiB, +-1): what is refused right after it, and what is accepted
+        st.count("probe.key_of_64KiB_to_1MiB", 1);
+        st.report("C06", &Case::Build(huge_key_case((idx - ex) * 5 % 18, true)));
         return;
     }
     let mut rng = rng_for(cfg, idx);
@@ -613,6 +663,10 @@ pub fn c11(cfg: &Cfg, idx: u64, st: &mut Stats) {
             None
         },
     };
+    let mut base = base;
+    // every representation of an io::Error (text payload, bare kind, errno,
+    // a payload that is itself an fst::Error) is an I/O failure of the sink
+    base.plan.err_repr = crate::sink::ERR_REPRS[((idx / 3) % 4) as usize];
     let dry = run_build(&base);
     let explicit = crate::exec::explicit_build(&base, dry.sink.recorded_plan());
     // the fault-free configuration must itself satisfy O4
@@ -797,6 +851,56 @@ pub fn c20(cfg: &Cfg, idx: u64, st: &mut Stats) {
         d.bytes(&bytes[..4096]);
         st.bulk(d.finish(), n);
         st.count("corrupt.boundary_footers_on_artifact_above_1MiB", n);
+        return;
+    }
+    if idx == sweeps + 1 {
+        // files of "round" sizes: 2^k + d for k = 12..23 and m MiB + d, each
+        // with a version-3 header and a footer that opens (root address =
+        // size - 21), once with a wrong and once with the right checksum, so
+        // that verify() runs over the whole body. Size thresholds, block or
+        // window arithmetic in open / verify must not turn a size into a panic.
+        let mut sizes: Vec<usize> = Vec::new();
+        for k in 12..=23u32 {
+            for d in -8i64..=8 {
+                sizes.push(((1i64 << k) + d) as usize);
+            }
+        }
+        for m in [3usize, 5, 6, 7] {
+            for d in [-1i64, 0, 1, 3, 4, 5, 8] {
+                sizes.push(((m << 20) as i64 + d) as usize);
+            }
+        }
+        let fill = rng.next_u64();
+        let mut n = 0u64;
+        for sz in sizes {
+            let mut m: Vec<u8> = Vec::with_capacity(sz);
+            let mut x = fill ^ sz as u64;
+            while m.len() + 8 <= sz {
+                x = x.wrapping_mul(0x9E37_79B9_7F4A_7C15).rotate_left(23) ^ 0x5851_F42D_4C95_7F2D;
+                m.extend_from_slice(&x.to_le_bytes());
+            }
+            m.resize(sz, 0x5a);
+            m[..8].copy_from_slice(&3u64.to_le_bytes());
+            m[8..16].copy_from_slice(&0u64.to_le_bytes());
+            let mut tail = Vec::new();
+            tail.extend_from_slice(&1u64.to_le_bytes());
+            tail.extend_from_slice(&((sz - 21) as u64).to_le_bytes());
+            m[sz - 20..sz - 4].copy_from_slice(&tail);
+            for fixed in [false, true] {
+                if fixed {
+                    crate::restart::apply(&mut m, &Mutation::FixChecksum);
+                }
+                n += 1;
+                if crate::restart::check_c20_bytes(&m).is_some() {
+                    st.report("C20", &Case::Corrupt(CorruptCase { base: Base::Raw(m.clone()), muts: vec![] }));
+                    return;
+                }
+            }
+        }
+        let mut d = crate::rng::Digest::new();
+        d.u64(fill);
+        st.bulk(d.finish(), n);
+        st.count("corrupt.openable_files_of_round_sizes_4KiB_to_8MiB", n);
         return;
     }
     if idx < sweeps {
@@ -1083,6 +1187,21 @@ pub fn c08(cfg: &Cfg, idx: u64, st: &mut Stats) {
         }
         return;
     }
+    if idx > files + 30 && idx <= files + 30 + 16 {
+        // artifacts from the entry points that drive a builder on the
+        // caller's behalf: the four from_iter functions and the Default impls
+        use crate::multi::MemFront as MF;
+        let k = (idx - files - 31) as usize;
+        let entry = [MF::MapDefault, MF::SetDefault, MF::MapFromIter, MF::SetFromIter, MF::FstFromIterMap, MF::FstFromIterSet][k % 6];
+        let items: Vec<Item> = if matches!(entry, MF::MapDefault | MF::SetDefault) || k < 6 {
+            vec![]
+        } else {
+            let set_like = matches!(entry, MF::SetFromIter | MF::FstFromIterSet);
+            gen::sequence(&mut rng, 12, !set_like)
+        };
+        st.report("C08", &Case::FromIter(crate::multi::FromIterCase { entry, items }));
+        return;
+    }
     if idx == files {
         // one artifact of several MiB: build path (byte-at-a-time sums) vs
         // verify path (16 bytes at a time over the whole file) at a scale
@@ -1346,6 +1465,50 @@ pub fn c15(cfg: &Cfg, idx: u64, st: &mut Stats) {
         st.report("C15", &Case::Multi(case));
         return;
     }
+    // (placed behind the indices that the cross-process determinism sample
+    // re-runs in five more processes: these worlds cost seconds each)
+    let estart = match cfg.tier {
+        Tier::Quick => 2_000u64,
+        Tier::Thorough => 100_000,
+    };
+    let elist: &[u64] = match cfg.tier {
+        Tier::Quick => &[255, 256, 65_535, 65_536],
+        Tier::Thorough => &[254, 255, 256, 257, 1_000, 65_534, 65_535, 65_536, 65_537, 70_000, 131_071, 131_072],
+    };
+    if idx >= estart && idx < estart + elist.len() as u64 {
+        // the same sequence before and after N other builder objects in the
+        // same thread; N around 2^8 and 2^16 (object counters that wrap)
+        let between = elist[(idx - estart) as usize];
+        let valued = idx % 2 == 0;
+        let items = gen::sequence(&mut rng, 12, valued);
+        st.report("C15", &Case::Epoch(crate::multi::EpochCase { items, valued, between }));
+        return;
+    }
+    if idx == 6 || idx == 7 {
+        let valued = idx == 6;
+        let mut tasks: Vec<MTask> = Vec::new();
+        let mems: &[crate::multi::MemFront] = if valued { &MEM_FRONTS_MAP } else { &MEM_FRONTS_SET };
+        for f in mems {
+            tasks.push(MTask { kind: MKind::Mem(*f), same: true });
+        }
+        tasks.push(MTask {
+            kind: MKind::Mem(if valued { crate::multi::MemFront::MapDefault } else { crate::multi::MemFront::SetDefault }),
+            same: true,
+        });
+        tasks.push(MTask {
+            kind: MKind::Sink(BuildCase::clean(TaskSpec {
+                front: if valued { Front::Map } else { Front::Set },
+                registry: None,
+                ops: vec![],
+                fin: Fin::IntoInner,
+            })),
+            same: true,
+        });
+        st.count("probe.c15_empty_sequence_incl_default_impls", 1);
+        let case = MultiCase { items: vec![], valued, tasks, schedule: vec![], sched_seed: Some(rng.next_u64()) };
+        st.report("C15", &Case::Multi(case));
+        return;
+    }
     let mut valued = rng.chance(2, 3);
     let mut items = gen::sequence(&mut rng, 30, valued);
     if rng.chance(1, 8) {
@@ -1392,18 +1555,25 @@ pub fn c15(cfg: &Cfg, idx: u64, st: &mut Stats) {
             tasks.push(MTask { kind: MKind::Sink(bc), same: true });
         }
     }
-    for _ in 0..rng.urange(0, 2) {
-        if rng.chance(1, 3) {
+    for _ in 0..rng.urange(0, 3) {
+        if rng.chance(1, 4) {
             tasks.push(MTask { kind: MKind::Mem(*rng.pick(&MEM_FRONTS_MAP)), same: false });
         } else {
             let (task, _) = gen::legal_task(&mut rng, 20);
-            let bc = BuildCase {
+            let mut bc = BuildCase {
                 task,
                 bufcap: None,
                 prefill: vec![],
                 plan: Plan::clean(),
                 random: Some((gen::benign_shape(&mut rng), rng.next_u64())),
             };
+            if rng.chance(1, 2) {
+                // a disturber whose file fails under it: the builder dies
+                // with an I/O error somewhere in the middle of its output.
+                // What another builder emits must not depend on that either.
+                bc.plan.fault_write = Some((rng.usize_below(60), WStep::Err(gen::err_kind(&mut rng))));
+                st.count("probe.c15_disturber_dies_with_io_error", 1);
+            }
             tasks.push(MTask { kind: MKind::Sink(bc), same: false });
         }
     }
